@@ -108,7 +108,7 @@ def meta(tier):
                 'drawn from start x kind/length options, each placed by its own origin; expected rejection iff two lines of '
                 'length >= 1 share an address, otherwise the image is the union; non-trivial = ranges touch or overlap, or a '
                 'zero-length line lies inside another range; every pair (and every touching triple) is run a second time with '
-                '--no-binary and one of the four pretty-print formats, with --no-binary alone, or with an image window (-s / -e) that contains none of the lines, judged on acceptance only; plus every program of up to 4 (thorough 5) lines over bytes / fills / a macro / zone switches / includes of a plain file and of a file that switches zone '
+                '--no-binary and one of the four pretty-print formats, with --no-binary alone, with -vvv, or with an image window (-s / -e) that contains none of the lines, judged on acceptance only; plus every program of up to 4 (thorough 5) lines over bytes / fills / a macro / zone switches / includes of a plain file and of a file that switches zone '
                 'without any origin directive or predefined data (collisions through overlapping zones and code growing into a zone only); plus every ordered pair of lines placed in the last 6 addresses of an 8- / 16-bit address space; states = distinct sets of occupied (address, owner) cells',
         'bounds': {'starts': 'pairs 0..6; triples 0..3 (quick) / 0..6 (thorough)',
                    'kinds': ['.byte x1..3', '.fill 0|1|3', '.zerountil (len 2, len 0)', 'nop', 'ldi', 'jmp', 'm2 (macro of two 12-bit steps)', '.2byte "AB" (4 bytes)',
@@ -170,15 +170,18 @@ def shard(acc, tier, idx, n):
             if ref.status != 'DC' and (k == 2 or touch):
                 # the same program with --no-binary and a pretty print only: acceptance must not depend on the outputs requested
                 fmt = FORMATS[ctr % len(FORMATS)]
-                if (ctr // len(FORMATS)) % 3 == 0:
+                if (ctr // len(FORMATS)) % 4 == 3:
+                    case2 = Case(isa_cache[key], R.render_files(files), verbose=3)          # everything is logged
+                    mode = '-vvv'
+                elif (ctr // len(FORMATS)) % 4 == 0:
                     case2 = Case(isa_cache[key], R.render_files(files), binary=False, pretty=fmt)
                     mode = f'--no-binary -p -t {fmt}'
-                elif (ctr // len(FORMATS)) % 3 == 2:
+                elif (ctr // len(FORMATS)) % 4 == 2:
                     case2 = Case(isa_cache[key], R.render_files(files), binary=False)          # nothing at all is written
                     mode = '--no-binary'
                 else:
                     # ... or with an image window that lies entirely above (or below) every line of the program
-                    above = (ctr // (3 * len(FORMATS))) % 2 == 0
+                    above = (ctr // (4 * len(FORMATS))) % 2 == 0
                     case2 = Case(isa_cache[key], R.render_files(files), pretty=fmt, start=0x60 if above else 0, end=None if above else 0)
                     mode = f'-s 96 -p -t {fmt}' if above else f'-e 0 -p -t {fmt}'
                 out2 = acc.run(case2)
